@@ -1080,6 +1080,12 @@ func ruleStaleRaw(c *Ctx) {
 					return
 				}
 				if _, ok := paramIndex(x); ok {
+					if token.IsExported(fn.Name()) {
+						// RedirectMarshalJSON, MarshalJSON, …: invoked by the codec through an interface, on
+						// nodes in any state — there is no call site to carry the requirement to
+						l.add("R-STALERAW", b.Name, key, b.posOf(ins), Violated, "the raw bytes of the receiver are handed out as its content without a which == eRaw fact, in a method the codec invokes on nodes in every state: a node that was parsed and edited through its parsed form (a member stored or removed in it, or below it) is written out as the text it was parsed from", true)
+						return
+					}
 					l.add("R-STALERAW", b.Name, key, b.posOf(ins), Discharged, "parameter: the requirement (node still in state eRaw) is carried to every call site by the function's summary", false)
 					return
 				}
@@ -1215,6 +1221,12 @@ func (a *nilAn) rootObjectDecoded(l *Ledger, fn *ssa.Function, v ssa.Value, at s
 // startsWithBrace: the instruction is dominated by the true edge of a comparison of a byte
 // read from the text (directly, or through a library helper given the text) with '{'.
 func (a *nilAn) startsWithBrace(fn *ssa.Function, text ssa.Value, at ssa.Instruction) string {
+	return a.b.firstByteIs(fn, text, at.Block(), '{')
+}
+
+// firstByteIs: the block is dominated by the true edge of a comparison of a byte read from
+// the text (directly, or through a helper given the text) with ch.
+func (b *Body) firstByteIs(fn *ssa.Function, text ssa.Value, at *ssa.BasicBlock, ch int64) string {
 	var fromText func(v ssa.Value, d int) bool
 	fromText = func(v ssa.Value, d int) bool {
 		if d > 6 {
@@ -1229,6 +1241,8 @@ func (a *nilAn) startsWithBrace(fn *ssa.Function, text ssa.Value, at ssa.Instruc
 		case *ssa.IndexAddr:
 			return fromText(x.X, d+1)
 		case *ssa.Lookup:
+			return fromText(x.X, d+1)
+		case *ssa.Index:
 			return fromText(x.X, d+1)
 		case *ssa.Convert:
 			return fromText(x.X, d+1)
@@ -1256,15 +1270,15 @@ func (a *nilAn) startsWithBrace(fn *ssa.Function, text ssa.Value, at ssa.Instruc
 		if _, isC := intConst(x); isC {
 			x, y = y, x
 		}
-		if n, isC := intConst(y); !isC || n != '{' || !fromText(x, 0) {
+		if n, isC := intConst(y); !isC || n != ch || !fromText(x, 0) {
 			continue
 		}
 		succ := 0
 		if bo.Op == token.NEQ {
 			succ = 1
 		}
-		if edgeDominates(bb, succ, at.Block()) {
-			return "dominated by a first-byte == '{' test of the same text at " + a.b.posOf(ifi)
+		if edgeDominates(bb, succ, at) {
+			return fmt.Sprintf("dominated by a first-byte == %q test of the same text at %s", rune(ch), b.posOf(ifi))
 		}
 	}
 	return ""
